@@ -2,7 +2,7 @@
    Only statements here; every proof is [exact <lemma of Proofs/C06*.v>].
    Model: Model/C06.v (TimeoutDict, Block1Spool.feed_and_take, Block2Cache.extract_or_insert,
    Resource._render_to_pipe, a site of resources under virtual time). *)
-From Verif Require Import Lib.Py Lib.Tactics Gen.block_kernels Model.C06 Proofs.C06TimeoutDict Proofs.C06 Proofs.C06Kernel.
+From Verif Require Import Lib.Py Lib.Tactics Gen.block_kernels Model.C06 Proofs.C06TimeoutDict Proofs.C06 Proofs.C06Kernel Proofs.C06Lifetime.
 Open Scope Z_scope.
 
 (* ---- 0. every reachable server state satisfies the invariants: each stored assembly is the
@@ -179,6 +179,69 @@ Theorem C06_timeoutdict_advance_settled : forall (K V : Type) (keqb : K -> K -> 
 Proof. exact @td_ginv_advance. Qed.
 Print Assumptions C06_timeoutdict_advance_settled.
 
+(* ---- 5. lifetime at SERVER level.  [l_asm lg i k] / [l_rend lg i k] = the time of the last USE of the assembly /
+   stored rendering of key k on resource i, computed along the event history by [last1_step] / [last2_step]
+   (Proofs/C06Lifetime.v).  What counts as a use:
+     assembly:  a block 0 of k; every continuation (NUM>0) of k that finds an assembly — appended (2.31 or handed to
+                the handler) or REJECTED with 4.00 / 4.08 (gap, overlap): the lookup refreshes the timeout first;
+                a continuation that finds nothing, or a request without Block1, is not a use;
+     rendering: a block-0 / Block2-less request whose rendering is chunked (stored); a NUM>0 request that finds a
+                rendering (served, or answered 4.00 beyond the end); a rendering request answered whole EVICTS the
+                entry (the ghost forgets the key); a NUM>0 request that finds nothing is not a use; idle time never is.
+   Model assumption as everywhere: handlers are atomic.  Advance steps are non-negative. *)
+Theorem C06_reachable_life_inv : forall T sv gh lg, 0 < T -> reachable_life T sv gh lg -> server_inv gh sv /\ life_inv T lg sv.
+Proof. exact reachable_life_inv. Qed.
+Print Assumptions C06_reachable_life_inv.
+
+(* for every event history of the multi-resource server: an entry used at [a] is present at every now < a + T, every
+   present entry was used less than 2T ago, and an entry never used / evicted / used 2T or more ago is absent *)
+Theorem C06_server_state_lifetime : forall T sv gh lg, 0 < T -> reachable_life T sv gh lg -> forall i k,
+  let s := nth i (resources sv) rstate_empty in
+  ((forall a, l_asm lg i k = Some a -> now sv < a + T -> kget k (block1 s) <> None) /\
+   (kget k (block1 s) <> None -> exists a, l_asm lg i k = Some a /\ a <= now sv /\ now sv < a + 2 * T) /\
+   (l_asm lg i k = None -> kget k (block1 s) = None) /\
+   (forall a, l_asm lg i k = Some a -> a + 2 * T <= now sv -> kget k (block1 s) = None)) /\
+  ((forall a, l_rend lg i k = Some a -> now sv < a + T -> kget k (block2 s) <> None) /\
+   (kget k (block2 s) <> None -> exists a, l_rend lg i k = Some a /\ a <= now sv /\ now sv < a + 2 * T) /\
+   (l_rend lg i k = None -> kget k (block2 s) = None) /\
+   (forall a, l_rend lg i k = Some a -> a + 2 * T <= now sv -> kget k (block2 s) = None)).
+Proof. exact server_state_lifetime_lemma. Qed.
+Print Assumptions C06_server_state_lifetime.
+
+(* observable: a continuation arriving less than T after the last use of its transfer finds the assembly and is
+   answered 4.08 only for a gap / overlap (never for expiry); one arriving 2T or more after it (or for a transfer
+   never started) is answered 4.08, the handler is not invoked and the state is unchanged.
+   The hypotheses hold for every resource of every reachable server (C06_reachable_life_inv). *)
+Theorem C06_continuation_expiry : forall T now g l s req rendering b,
+  spool_inv g (block1 s) -> td_ginv key_eqb T now l (block1 s) -> m_block1 req = Some b -> b_num b <> 0 ->
+  let k := extract_block_key req in
+  (forall a, l k = Some a -> now < a + T ->
+     exists asm, kget k (block1 s) = Some asm /\
+       (forall sp', feed_and_take T now (block1 s) req = (sp', RRaise EIncomplete) ->
+          size_ok b req = true /\ b_start b <> blen (m_payload asm)) /\
+       (b_more b = true -> snd (render_to_pipe T now s req rendering) = incomplete_resp ->
+          size_ok b req = true /\ b_start b <> blen (m_payload asm))) /\
+  (l k = None \/ (exists a, l k = Some a /\ a + 2 * T <= now) ->
+     render_to_pipe T now s req rendering = (s, [], incomplete_resp)).
+Proof. exact continuation_expiry_lemma. Qed.
+Print Assumptions C06_continuation_expiry.
+
+(* the same for a later block of a response: less than T after the last use of the stored rendering it is served
+   (exact slice, or 4.00 beyond the end) and never answered 4.08; 2T or more after it (or evicted / never stored): 4.08 *)
+Theorem C06_later_block_expiry : forall T now gr l s req rendering b2,
+  cache_inv gr (block2 s) -> td_ginv key_eqb T now l (block2 s) -> m_block1 req = None -> m_block2 req = Some b2 -> b_num b2 <> 0 ->
+  let k := extract_block_key req in
+  (forall a, l k = Some a -> now < a + T ->
+     exists Rn, kget k (block2 s) = Some Rn /\ gr k = Some Rn /\
+       snd (render_to_pipe T now s req rendering) =
+         (if b2_start (b_szx b2) (b_num b2) >=? blen (p_payload Rn) then bad_request_resp txt_out_of_bounds
+          else slice_resp Rn (b_num b2) (b_szx b2) (m_mps req)) /\
+       snd (render_to_pipe T now s req rendering) <> incomplete_resp) /\
+  (l k = None \/ (exists a, l k = Some a /\ a + 2 * T <= now) ->
+     render_to_pipe T now s req rendering = (s, [], incomplete_resp)).
+Proof. exact later_block_expiry_lemma. Qed.
+Print Assumptions C06_later_block_expiry.
+
 (* ---- the scenario of the former finding C06:block2-stale-rendering (corpus/C06/stale.json): after a
    block-0 request that is answered whole, a NUM>0 request gets 4.08 and nothing is kept *)
 Definition get_req (b2 : blockopt) (id : Z) : msg :=
@@ -244,3 +307,28 @@ Theorem C06_block_size_start_is_source : forall b,
   bt_size (b_num b) (b_more b) (b_szx b) = Ok (b_size b) /\ bt_start (b_num b) (b_more b) (b_szx b) = Ok (b_start b).
 Proof. intros b. split; [exact (b_size_is_source b)|exact (b_start_is_source b)]. Qed.
 Print Assumptions C06_block_size_start_is_source.
+
+(* a rejected continuation is a use: block 0 at 0, a gap (4.08) at T-1, and block 1 at 2T-2 — more than T after block 0,
+   less than T after the rejected block — is still appended (2.31); the ghost records T-1 resp. 2T-2 as last use;
+   after 2T more idle time a continuation gets 4.08 *)
+Example C06_rejected_continuation_is_a_use :
+  let T := MAX_TRANSMIT_WAIT_us in
+  let r0 := put_req {| b_num := 0; b_more := true; b_szx := 0 |} (mk_body 0 16) 1 in
+  let es := [Request 0 r0 (rend 0); Advance (T - 1);
+             Request 0 (put_req {| b_num := 2; b_more := true; b_szx := 0 |} (mk_body 9 16) 2) (rend 0)] in
+  let es2 := es ++ [Advance (T - 1); Request 0 (put_req {| b_num := 1; b_more := true; b_szx := 0 |} (mk_body 9 16) 3) (rend 0)] in
+  let es3 := es2 ++ [Advance (2 * T); Request 0 (put_req {| b_num := 2; b_more := true; b_szx := 0 |} (mk_body 9 16) 4) (rend 0)] in
+  l_asm (run_last T (server_init 1) lghost_init es) 0%nat (extract_block_key r0) = Some (T - 1) /\
+  l_asm (run_last T (server_init 1) lghost_init es2) 0%nat (extract_block_key r0) = Some (2 * T - 2) /\
+  match snd (run T (server_init 1) es3) with
+  | [ORequest [] r1 1 0; OAdvance _; ORequest [] r2 1 0; OAdvance [(1, 0)]; ORequest [] r3 1 0; OAdvance [(0, 0)]; ORequest [] r4 0 0] =>
+      p_code r1 = CONTINUE /\ r2 = incomplete_resp /\ p_code r3 = CONTINUE /\ r4 = incomplete_resp
+  | _ => False
+  end /\
+  reachable_life T (fst (run T (server_init 1) es)) (run_ghost T (server_init 1) ghost_init es) (run_last T (server_init 1) lghost_init es).
+Proof.
+  cbn zeta. split; [vm_compute; reflexivity|]. split; [vm_compute; reflexivity|]. split; [vm_compute; repeat split|].
+  exists 1%nat. eexists. split; [|split; [|split; [reflexivity|split; reflexivity]]].
+  - repeat constructor.
+  - repeat constructor; vm_compute; discriminate.
+Qed.
